@@ -171,7 +171,10 @@ def op_eof_set(a):
 def _fin(a, conf=None) -> FinishedPdu:
     params = FinishedParams(condition_code=_enum(ConditionCode, a["cond"]), delivery_code=_enum(DeliveryCode, a["delivery"]),
                             file_status=_enum(FileStatus, a["status"]),
-                            file_store_responses=[_fsresp(r) for r in a["responses"]], fault_location=_fault(a["fault"]))
+                            # "responses_none" (ignored by the model op): no responses given as None instead of []
+                            file_store_responses=(None if a.get("responses_none") and not a["responses"]
+                                                  else [_fsresp(r) for r in a["responses"]]),
+                            fault_location=_fault(a["fault"]))
     return FinishedPdu(pdu_conf=_conf(a) if conf is None else conf, params=params)
 
 
@@ -184,7 +187,7 @@ def _fin_fields(p: FinishedPdu, code=None):
     _need(int(prm.condition_code) == int(p.condition_code) and int(prm.delivery_code) == int(p.delivery_code)
           and int(prm.file_status) == int(p.file_status), "finished_params and the PDU's views disagree")
     f.update(cond=int(p.condition_code), delivery=int(p.delivery_code), status=int(p.file_status),
-             responses=[_fsresp_fields(r) for r in p.file_store_responses], fault=_fault_field(p.fault_location),
+             responses=[_fsresp_fields(r) for r in (p.file_store_responses or [])], fault=_fault_field(p.fault_location),
              might=bool(p.might_have_fault_location), resp_len=int(p.file_store_responses_len))
     if code is not None:
         _need(f["code"] == code, f"directive code {f['code']} != {code}")
@@ -205,7 +208,10 @@ def _fin_check(p, raw: bytes):
         # DESIGN §8: not a valid parameter set for the round trip; the fault location is not packed
         _check_roundtrip(p, FinishedPdu, _fin_fields, raw, f, norm=_fin_norm_dropped_fault, eq=False)
     else:
-        _check_roundtrip(p, FinishedPdu, _fin_fields, raw, f, eq=fl is None or len(fl.value) in ID_WIDTHS)
+        # (responses given as None instead of a list: outside the typed parameter set - FinishedParams declares a
+        #  List - so `==` with the decoded PDU, which holds [], is not claimed; octets, lengths and values are)
+        none_resp = p.finished_params.file_store_responses is None
+        _check_roundtrip(p, FinishedPdu, _fin_fields, raw, f, eq=(fl is None or len(fl.value) in ID_WIDTHS) and not none_resp)
     return f
 
 
@@ -828,6 +834,9 @@ class C06Var(Prop):
                 fault = None if (cond in NO_FAULT_CONDS or k % 3 == 0) else rand_fault(rng, ID_WIDTHS[k % 4])
                 p = {"cond": cond, "delivery": dc, "status": fs, "responses": rs, "fault": None if fault is None else hx(fault)}
                 yield Case({"op": "fin_pack", **a, **p}, "valid", tag="config-all")
+                if not rs:
+                    # the same PDU with "no filestore responses" given as None (FinishedParams allows it): same octets, same lengths
+                    yield Case({"op": "fin_pack", **a, **p, "responses_none": True}, "valid", tag="config-all-none")
                 yield from dec_cases("fin_unpack", spec_fin(a, cond, dc, fs, rs, fault), rng, a, "config-all", k % 32 == 0)
         # every (condition code x delivery code x file status), with / without fault location
         for rep in range(5 if thorough else 1):
